@@ -1952,35 +1952,89 @@ pub fn history_strategy(p: Profile, max_ops: usize) -> BoxedStrategy<History> {
 /// the history, a transaction that does not end although every wake-up the agent names is followed
 /// (far more polls than any configured schedule has events).
 pub fn lifecycle_plain(h: &History, origin: Instant) -> Result<(), (String, String)> {
+    plain_oracles(h, origin, "C05")
+}
+
+/// The model-free oracles of C05 (life cycle), C15 (validated peers) and C18 (transmissions) over
+/// one execution of `h` (every poll a drain). Only violations of `tag`'s statement are returned.
+///  C05: see above. C15: the set of validated peers is exactly the set of addresses from which the
+///  agent answered `IncomingStun` or `StunResponse`, after every step, for the pool addresses and
+///  their look-alikes. C18: every transmission handed out by `send` or `poll` is byte for byte the
+///  serialisation captured when the message was handed to `send`, from the agent's address to the
+///  destination given then, over the agent's transport; a non-request leaves nothing outstanding.
+pub fn plain_oracles(h: &History, origin: Instant, tag: &str) -> Result<(), (String, String)> {
     let k = ticks_per_ms(h.tick);
     let tick_ns = 1_000_000 / k;
     let at = |ticks: u64| origin + Duration::from_nanos(ticks * tick_ns);
     let transport = if h.tcp { TransportType::Tcp } else { TransportType::Udp };
+    let local = local_addr_of(h.remote);
     let mut agent = build_agent(transport, h.remote);
     let mut live: BTreeSet<u128> = BTreeSet::new();
+    let mut sent: BTreeMap<u128, (Vec<u8>, SocketAddr)> = BTreeMap::new();
+    let mut validated: BTreeSet<SocketAddr> = BTreeSet::new();
     let mut now = 0u64;
     let mut last_wait: Option<u64> = None;
     let mut budget_ops = 0usize;
-    let fail = |sig: &str, step: usize, msg: String| Err((sig.to_string(), format!("step {}: {} (life-cycle judged from the agent's own replies, no timing model)", step, msg)));
-    // one drain; returns Err on a life-cycle violation
-    fn drain(agent: &mut StunAgent, live: &mut BTreeSet<u128>, t: Instant, step: usize, cap: usize) -> Result<Option<Instant>, (String, String)> {
+    let c05 = tag == "C05";
+    let c15 = tag == "C15";
+    let c18 = tag == "C18";
+    let note = " (judged from the agent's own replies, no timing model)";
+    let fail = |sig: &str, step: usize, msg: String| Err((sig.to_string(), format!("step {}: {}{}", step, msg, note)));
+    struct Env<'a> {
+        live: &'a mut BTreeSet<u128>,
+        sent: &'a BTreeMap<u128, (Vec<u8>, SocketAddr)>,
+        local: SocketAddr,
+        transport: TransportType,
+        c05: bool,
+        c18: bool,
+    }
+    fn check_tx(e: &Env, tr: &Transmit, id: u128, step: usize, what: &str) -> Result<(), (String, String)> {
+        if !e.c18 {
+            return Ok(());
+        }
+        if let Some((bytes, dest)) = e.sent.get(&id) {
+            if tr.data() != &bytes[..] {
+                return Err(("c18-bytes".into(), format!("step {}: {} of {:#x} carries {} which is not the serialisation of the message handed to send, {}", step, what, id, hex_short(tr.data()), hex_short(bytes))));
+            }
+            if tr.from != e.local || tr.to != *dest || tr.transport != e.transport {
+                return Err(("c18-addressing".into(), format!("step {}: {} of {:#x} is {:?} {} -> {}, expected {:?} {} -> {}", step, what, id, tr.transport, tr.from, tr.to, e.transport, e.local, dest)));
+            }
+        }
+        Ok(())
+    }
+    // one drain; returns the wake-up instant, or None when the agent never settles
+    fn drain(agent: &mut StunAgent, e: &mut Env, t: Instant, step: usize, cap: usize) -> Result<Option<Instant>, (String, String)> {
         for _ in 0..cap {
             match agent.poll(t) {
                 StunAgentPollRet::WaitUntil(w) => return Ok(Some(w)),
                 StunAgentPollRet::SendData(tr) => {
                     let d = tr.data();
+                    let mut pool_id_of = None;
                     if d.len() >= 20 {
                         let mut b = [0u8; 16];
                         b[4..].copy_from_slice(&d[8..20]);
                         let id = u128::from_be_bytes(b);
-                        if !live.contains(&id) && (0..N_IDS).map(pool_id).any(|p| p == id) {
-                            return Err(("c05-transmit-after-completion".into(), format!("step {}: poll hands out a transmission for {:#x}, which is not outstanding (ended or never accepted)", step, id)));
+                        if (0..N_IDS).map(pool_id).any(|p| p == id) {
+                            pool_id_of = Some(id);
+                        }
+                    }
+                    match pool_id_of {
+                        Some(id) => {
+                            if e.c05 && !e.live.contains(&id) {
+                                return Err(("c05-transmit-after-completion".into(), format!("step {}: poll hands out a transmission for {:#x}, which is not outstanding (ended or never accepted)", step, id)));
+                            }
+                            check_tx(e, &tr, id, step, "a retransmission")?;
+                        }
+                        None => {
+                            if e.c18 {
+                                return Err(("c18-bytes".into(), format!("step {}: poll hands out {} bytes that are not the serialisation of any request handed to send: {}", step, d.len(), hex_short(d))));
+                            }
                         }
                     }
                 }
                 StunAgentPollRet::TransactionTimedOut(id) | StunAgentPollRet::TransactionCancelled(id) => {
                     let id: u128 = id.into();
-                    if !live.remove(&id) {
+                    if !e.live.remove(&id) && e.c05 {
                         return Err(("c05-double-completion".into(), format!("step {}: poll reports the end of {:#x}, which is not outstanding (it ended before or was never accepted)", step, id)));
                     }
                 }
@@ -1988,26 +2042,50 @@ pub fn lifecycle_plain(h: &History, origin: Instant) -> Result<(), (String, Stri
         }
         Ok(None)
     }
+    macro_rules! env {
+        () => {
+            Env { live: &mut live, sent: &sent, local, transport, c05, c18 }
+        };
+    }
     for (step, op) in h.ops.iter().enumerate() {
         match op {
             Op::Send { id, class, seal, dest, payload } => {
                 budget_ops += 1;
                 let tid = pool_id(*id);
-                let ok = with_request(tid, *class, *seal, *payload, |b, _| agent.send(b, peer(*dest), at(now)).is_ok());
-                if class % 4 == 0 && ok {
-                    if !live.insert(tid) {
-                        return fail("c05-duplicate-send", step, format!("a second request with the outstanding id {:#x} was accepted", tid));
+                let is_request = class % 4 == 0;
+                let r: (Vec<u8>, Option<(Vec<u8>, SocketAddr, SocketAddr, TransportType)>) =
+                    with_request(tid, *class, *seal, *payload, |b, bytes| (bytes, agent.send(b, peer(*dest), at(now)).ok().map(|t| (t.data().to_vec(), t.from, t.to, t.transport))));
+                if let (bytes, Some((data, from, to, tp))) = r {
+                    if c18 && (data != bytes || from != local || to != peer(*dest) || tp != transport) {
+                        return fail(
+                            if data != bytes { "c18-bytes" } else { "c18-addressing" },
+                            step,
+                            format!("send returns {:?} {} -> {} carrying {}; the message handed in serialises to {} and was addressed to {}", tp, from, to, hex_short(&data), hex_short(&bytes), peer(*dest)),
+                        );
                     }
+                    if is_request {
+                        if !live.insert(tid) && c05 {
+                            return fail("c05-duplicate-send", step, format!("a second request with the outstanding id {:#x} was accepted", tid));
+                        }
+                        sent.insert(tid, (bytes, peer(*dest)));
+                    }
+                } else if c18 && !is_request && !live.contains(&tid) {
+                    return fail("c18-nonrequest", step, format!("send refused an indication / response with the free id {:#x}: nothing was transmitted", tid));
                 }
             }
             Op::SendConfigured { id, seal, dest, payload, rto_ms, retransmits, last_ms } => {
                 budget_ops += 1;
                 let tid = pool_id(*id);
-                let ok = with_request(tid, 0, *seal, *payload, |b, _| agent.send(b, peer(*dest), at(now)).is_ok());
-                if ok {
-                    if !live.insert(tid) {
+                let r: (Vec<u8>, Option<(Vec<u8>, SocketAddr, SocketAddr, TransportType)>) =
+                    with_request(tid, 0, *seal, *payload, |b, bytes| (bytes, agent.send(b, peer(*dest), at(now)).ok().map(|t| (t.data().to_vec(), t.from, t.to, t.transport))));
+                if let (bytes, Some((data, from, to, tp))) = r {
+                    if c18 && (data != bytes || from != local || to != peer(*dest) || tp != transport) {
+                        return fail(if data != bytes { "c18-bytes" } else { "c18-addressing" }, step, format!("send returns {:?} {} -> {} carrying {}; handed in: {} for {}", tp, from, to, hex_short(&data), hex_short(&bytes), peer(*dest)));
+                    }
+                    if !live.insert(tid) && c05 {
                         return fail("c05-duplicate-send", step, format!("a second request with the outstanding id {:#x} was accepted", tid));
                     }
+                    sent.insert(tid, (bytes, peer(*dest)));
                     if let Some(mut r) = agent.mut_request_transaction(TransactionId::from(tid)) {
                         r.configure_timeout(Duration::from_millis(*rto_ms as u64), *retransmits as u32, Duration::from_millis(*last_ms as u64));
                     }
@@ -2024,25 +2102,39 @@ pub fn lifecycle_plain(h: &History, origin: Instant) -> Result<(), (String, Stri
                     Adv::Far => now + 120_000 * k,
                 };
             }
-            Op::Poll | Op::Drain | Op::PollVia { .. } => match drain(&mut agent, &mut live, at(now), step, 64)? {
+            Op::Poll | Op::Drain | Op::PollVia { .. } => match drain(&mut agent, &mut env!(), at(now), step, 64)? {
                 Some(w) => last_wait = w.checked_duration_since(origin).map(|d| (d.as_nanos() / tick_ns as u128) as u64),
-                None => return fail("c05-endless-events", step, "64 polls at one instant all produced events".into()),
+                None => {
+                    if c05 {
+                        return fail("c05-endless-events", step, "64 polls at one instant all produced events".into());
+                    }
+                    return Ok(());
+                }
             },
             Op::Response { id, error, auth, from, fp, content } => {
                 let bytes = response_bytes(pool_id(*id), *error, *auth, *fp, *content);
                 if let Ok(m) = Message::from_bytes(&bytes) {
-                    if let HandleStunReply::StunResponse(m) = agent.handle_stun(m, peer(*from)) {
-                        let id: u128 = m.transaction_id().into();
-                        if !live.remove(&id) {
-                            return fail("c05-delivered-not-outstanding", step, format!("a response for {:#x} was delivered although that transaction is not outstanding", id));
+                    match agent.handle_stun(m, peer(*from)) {
+                        HandleStunReply::StunResponse(m) => {
+                            validated.insert(peer(*from));
+                            let id: u128 = m.transaction_id().into();
+                            if !live.remove(&id) && c05 {
+                                return fail("c05-delivered-not-outstanding", step, format!("a response for {:#x} was delivered although that transaction is not outstanding", id));
+                            }
                         }
+                        HandleStunReply::IncomingStun(_) => {
+                            validated.insert(peer(*from));
+                        }
+                        HandleStunReply::Drop => {}
                     }
                 }
             }
             Op::Incoming { id, indication, from } => {
                 let bytes = incoming_bytes(pool_id(*id), *indication);
                 if let Ok(m) = Message::from_bytes(&bytes) {
-                    let _ = agent.handle_stun(m, peer(*from));
+                    if !matches!(agent.handle_stun(m, peer(*from)), HandleStunReply::Drop) {
+                        validated.insert(peer(*from));
+                    }
                 }
             }
             Op::Cancel { id } => {
@@ -2064,16 +2156,41 @@ pub fn lifecycle_plain(h: &History, origin: Instant) -> Result<(), (String, Stri
             Op::SetRemoteCreds(c) => agent.set_remote_credentials(creds_k(remote_key_index(*c)).to_lib()),
             Op::SetLocalCreds(c) => agent.set_local_credentials(creds_k(*c % 3).to_lib()),
         }
-        for id in (0..N_IDS).map(pool_id) {
-            let has = agent.request_transaction(TransactionId::from(id)).is_some();
-            if has != live.contains(&id) {
-                return fail(
-                    if has { "c05-still-outstanding" } else { "c05-lost" },
-                    step,
-                    format!("request_transaction({:#x}) is {} but by the agent's own replies the transaction is {}", id, if has { "Some" } else { "None" }, if has { "not outstanding" } else { "outstanding" }),
-                );
+        if c05 || c18 {
+            for id in (0..N_IDS).map(pool_id) {
+                let req = agent.request_transaction(TransactionId::from(id));
+                let has = req.is_some();
+                if has != live.contains(&id) && c05 {
+                    return fail(
+                        if has { "c05-still-outstanding" } else { "c05-lost" },
+                        step,
+                        format!("request_transaction({:#x}) is {} but by the agent's own replies the transaction is {}", id, if has { "Some" } else { "None" }, if has { "not outstanding" } else { "outstanding" }),
+                    );
+                }
+                if c18 {
+                    if let (Some(r), Some((_, dest))) = (req, sent.get(&id)) {
+                        if live.contains(&id) && r.peer_address() != *dest {
+                            return fail("c18-peer-address", step, format!("request_transaction({:#x}).peer_address() is {}, the request was sent to {}", id, r.peer_address(), dest));
+                        }
+                    }
+                }
             }
         }
+        if c15 {
+            for a in (0..N_PEERS).map(peer) {
+                let got = agent.is_validated_peer(a);
+                if got != validated.contains(&a) {
+                    return fail(
+                        if got { "c15-spurious" } else { "c15-lost" },
+                        step,
+                        format!("is_validated_peer({}) is {} but the addresses from which the agent accepted a message (IncomingStun or StunResponse) so far are {:?}", a, got, validated),
+                    );
+                }
+            }
+        }
+    }
+    if !c05 && !c18 {
+        return Ok(());
     }
     // follow every wake-up the agent names: all live transactions must end
     let budget = 40 + 24 * budget_ops;
@@ -2081,15 +2198,20 @@ pub fn lifecycle_plain(h: &History, origin: Instant) -> Result<(), (String, Stri
         if live.is_empty() {
             return Ok(());
         }
-        match drain(&mut agent, &mut live, at(now), h.ops.len(), 64)? {
+        match drain(&mut agent, &mut env!(), at(now), h.ops.len(), 64)? {
             Some(w) => {
                 let t = w.checked_duration_since(origin).map(|d| (d.as_nanos() / tick_ns as u128) as u64).unwrap_or(0);
                 now = if t > now { t } else { now + 1 };
             }
-            None => return fail("c05-endless-events", h.ops.len(), "64 polls at one instant all produced events".into()),
+            None => {
+                if c05 {
+                    return fail("c05-endless-events", h.ops.len(), "64 polls at one instant all produced events".into());
+                }
+                return Ok(());
+            }
         }
     }
-    if live.is_empty() {
+    if live.is_empty() || !c05 {
         return Ok(());
     }
     fail(
